@@ -13,8 +13,10 @@ CountOk(t) == Has(e, "count") => e.count = Len(lh'[t])
 
 TSeg   == IsEv(l, "Seg")   /\ lh' = <<>> /\ peaks' = <<>> /\ store' = <<>>
 TNew   == IsEv(l, "New")   /\ NewTree(e.t)
-TPush  == IsEv(l, "Push")  /\ Push(e.t, e.d) /\ e.root = MTHh(lh'[e.t]) /\ e.root = RootOfPeaks(peaks'[e.t]) /\ CountOk(e.t)
-TReset == IsEv(l, "Reset") /\ Reset(e.t) /\ e.root = EmptyRoot /\ CountOk(e.t)
+\* (the root is observed after most operations, but not all: in "quiet" histories root() is called only now and then, so that a
+\*  value remembered from an earlier call would show)
+TPush  == IsEv(l, "Push")  /\ Push(e.t, e.d) /\ (Has(e, "root") => (e.root = MTHh(lh'[e.t]) /\ e.root = RootOfPeaks(peaks'[e.t]))) /\ CountOk(e.t)
+TReset == IsEv(l, "Reset") /\ Reset(e.t) /\ (Has(e, "root") => e.root = EmptyRoot) /\ CountOk(e.t)
 TLoad  == IsEv(l, "Load")  /\ e.ok /\ Load(e.t, e.from, e.k)
                            /\ e.root = MTHh(lh'[e.t]) /\ e.root = RootOfPeaks(peaks'[e.t]) /\ e.count = e.k
 TRoot  == IsEv(l, "Root")  /\ e.t \in Trees /\ e.root = MTHh(lh[e.t]) /\ (Has(e, "count") => e.count = Count(e.t))
